@@ -286,7 +286,8 @@ Definition thread_step (s : state) (t : tid) (th : thread) (a : act) : option st
       | None => go (PRenUnblock ch c RErr bg)
       end
   | PRenUnblock ch c r bg, AStep _ =>
-      go_in (rel_o s n ch) (if bg then PExit else PRet r)
+      (* a background goroutine just ends (it never holds a load channel) *)
+      go_in (rel_o s n ch) (if bg && is_none (t_ld th) then PExit else PRet r)
   | PRet r, AStep _ =>
       match t_ld th with
       | Some ch => Some (set_thr (rel_l s n ch) t (set_ld (set_pc th (PDone (final_res (t_ctx th) r))) None))
